@@ -52,6 +52,26 @@ impl<'a, R: 'a> MapAccess<'a, R> {
         ensures res.first, mut_ref_current(res.de) == *old(de), mut_ref_future(res.de) == *final(de),
 //@end
 }
+//@extract file=src/serde/de.rs struct=VariantAccess
+//@subst /^struct VariantAccess/ => pub struct VariantAccess
+//@subst /(?m)^    de:/ => pub de:
+//@end
+//@extract file=src/serde/de.rs struct=UnitVariantAccess
+//@subst /^struct UnitVariantAccess/ => pub struct UnitVariantAccess
+//@subst /(?m)^    de:/ => pub de:
+//@end
+impl<'a, R: 'a> VariantAccess<'a, R> {
+//@extract file=src/serde/de.rs impl="VariantAccess<'a, R>" fn=new
+//@sig
+        ensures mut_ref_current(res.de) == *old(de), mut_ref_future(res.de) == *final(de),
+//@end
+}
+impl<'a, R: 'a> UnitVariantAccess<'a, R> {
+//@extract file=src/serde/de.rs impl="UnitVariantAccess<'a, R>" fn=new
+//@sig
+        ensures mut_ref_current(res.de) == *old(de), mut_ref_future(res.de) == *final(de),
+//@end
+}
 //@extract file=sonic-number/src/lib.rs enum=ParserNumber
 
 /// stand-in for serde::de::Visitor: deterministic callbacks
@@ -85,12 +105,27 @@ pub trait Visitor<'de>: Sized {
     fn visit_map<'a, R: Reader<'de>>(self, map: MapAccess<'a, R>) -> (r: Result<Self::Value>)
         requires map.de.parser.pinv(), map.first, self.map_start_ok(map.de.parser.read.data(), map.de.parser.read.idx() as int),
         ensures mut_ref_future(map.de).parser.pinv(), mut_ref_future(map.de).parser.same_doc(&mut_ref_current(map.de).parser);
+    /// what visit_enum requires of the position it is started at: just after `{` (externally tagged), or at the opening
+    /// quote of a bare variant name
+    spec fn enum_start_ok(&self, s: Seq<u8>, idx: int, tagged: bool) -> bool;
+    fn visit_enum_tagged<'a, R: Reader<'de>>(self, data: VariantAccess<'a, R>) -> (r: Result<Self::Value>)
+        requires data.de.parser.pinv(), self.enum_start_ok(data.de.parser.read.data(), data.de.parser.read.idx() as int, true),
+        ensures mut_ref_future(data.de).parser.pinv(), mut_ref_future(data.de).parser.same_doc(&mut_ref_current(data.de).parser);
+    fn visit_enum_unit<'a, R: Reader<'de>>(self, data: UnitVariantAccess<'a, R>) -> (r: Result<Self::Value>)
+        requires data.de.parser.pinv(), self.enum_start_ok(data.de.parser.read.data(), data.de.parser.read.idx() as int, false),
+        ensures mut_ref_future(data.de).parser.pinv(), mut_ref_future(data.de).parser.same_doc(&mut_ref_current(data.de).parser);
     fn visit_some<R: Reader<'de>>(self, d: &mut Deserializer<R>) -> (r: Result<Self::Value>)
         requires old(d).parser.pinv(), self.some_start_ok(old(d).parser.read.data(), old(d).parser.read.idx() as int),
         ensures final(d).parser.pinv(), final(d).parser.same_doc(&old(d).parser);
 }
 
 impl<'de, R: Reader<'de>> Parser<R> {
+    // Parser::parse_number: index arithmetic around sonic_number::parse_number (unit `number`)
+    #[verifier::external_body]
+    pub fn parse_number(&mut self, first: u8) -> (res: Result<ParserNumber>)
+        requires old(self).pinv(), old(self).read.idx() >= 1, first == old(self).read.data()[old(self).read.idx() - 1], first == 0x2d || is_digit(first),
+        ensures final(self).pinv(), final(self).same_doc(old(self)),
+    { unimplemented!() }
     // fix_position only rewrites the position of an error (unit `errors`)
     #[verifier::external_body]
     pub fn fix_position(&self, err: Error) -> (e: Error) { unimplemented!() }
@@ -180,6 +215,102 @@ impl<'de, R: Reader<'de>> Deserializer<R> {
 //@body
         proof { lemma_ws_end_bounds(self.parser.read.data(), self.parser.read.idx() as int); }
 //@before /match \(ret, self\.end_map\(\)\) \{/
+                proof { lemma_ws_end_bounds(self.parser.read.data(), self.parser.read.idx() as int); }
+//@end
+
+//@extract file=src/serde/de.rs impl="de::Deserializer<'de> for &'a mut Deserializer<R>" fn=deserialize_struct
+//@subst /fn deserialize_struct<V>\(\s*self,/ => fn deserialize_struct<V>(&mut self,
+//@subst /self\.peek_invalid_type\(peek, &visitor\)/ => self.peek_invalid_type_v(peek)
+//@subst /let _ = DepthGuard::guard\(self\);/ => self.depth_guard_tick(); #all
+//@subst /V: de::Visitor<'de>,/ => V: Visitor<'de>,
+//@sig
+        requires old(self).parser.pinv(),
+            ({
+                let s = old(self).parser.read.data();
+                let p = ws_end(s, old(self).parser.read.idx() as int);
+                &&& (p < s.len() && s[p] == 0x7b ==> visitor.map_start_ok(s, p + 1))
+                &&& (p < s.len() && s[p] == 0x5b ==> visitor.seq_start_ok(s, p + 1))
+            }),
+        ensures final(self).parser.pinv(), final(self).parser.same_doc(&old(self).parser),
+            // a struct is read from an object or from an array (serde's two struct encodings), nothing else; the
+            // matching closing bracket must follow what the visitor consumed
+            res.is_ok() ==> ws_end(old(self).parser.read.data(), old(self).parser.read.idx() as int) < old(self).parser.read.data().len(),
+            res.is_ok() ==> final(self).parser.read.idx() >= 1,
+            res.is_ok() ==> ({
+                let s = old(self).parser.read.data();
+                let p = ws_end(s, old(self).parser.read.idx() as int);
+                (s[p] == 0x7b && s[final(self).parser.read.idx() - 1] == 0x7d) || (s[p] == 0x5b && s[final(self).parser.read.idx() - 1] == 0x5d)
+            }),
+//@body
+        proof { lemma_ws_end_bounds(self.parser.read.data(), self.parser.read.idx() as int); }
+//@before /match \(ret, self\.end_seq\(\)\) \{/
+                proof { lemma_ws_end_bounds(self.parser.read.data(), self.parser.read.idx() as int); }
+//@before /match \(ret, self\.end_map\(\)\) \{/
+                proof { lemma_ws_end_bounds(self.parser.read.data(), self.parser.read.idx() as int); }
+//@end
+
+//@extract file=src/serde/de.rs impl="de::Deserializer<'de> for &'a mut Deserializer<R>" fn=deserialize_any
+//@subst /fn deserialize_any<V>\(self,/ => fn deserialize_any<V>(&mut self,
+//@subst /let _ = DepthGuard::guard\(self\);/ => self.depth_guard_tick(); #all
+//@subst /V: de::Visitor<'de>,/ => V: Visitor<'de>,
+//@sig
+        requires old(self).parser.pinv(),
+            ({
+                let s = old(self).parser.read.data();
+                let p = ws_end(s, old(self).parser.read.idx() as int);
+                &&& (p < s.len() && s[p] == 0x7b ==> visitor.map_start_ok(s, p + 1))
+                &&& (p < s.len() && s[p] == 0x5b ==> visitor.seq_start_ok(s, p + 1))
+            }),
+        ensures final(self).parser.pinv(), final(self).parser.same_doc(&old(self).parser),
+            // self-describing dispatch on the first byte: literals hand over exactly their value, a string its decoded
+            // text (borrowed iff no escape), containers need their closing bracket; any other first byte is an error
+            res.is_ok() ==> ({
+                let s = old(self).parser.read.data();
+                let p = ws_end(s, old(self).parser.read.idx() as int);
+                let e = final(self).parser.read.idx() as int;
+                &&& p < s.len()
+                &&& (s[p] == 0x6e ==> lit_end(s, p + 1, ull()).is_some() && res == visitor.on_unit() && e == p + 4)
+                &&& (s[p] == 0x74 ==> lit_end(s, p + 1, rue()).is_some() && res == visitor.on_bool(true) && e == p + 4)
+                &&& (s[p] == 0x66 ==> lit_end(s, p + 1, alse()).is_some() && res == visitor.on_bool(false) && e == p + 5)
+                &&& (s[p] == 0x22 ==> str_end(s, p + 1) == Some(e) && res == visitor.on_str(decoded(s, p + 1, e - 1), !has_bs(s, p + 1, e)))
+                &&& (s[p] == 0x5b ==> e >= 1 && s[e - 1] == 0x5d)
+                &&& (s[p] == 0x7b ==> e >= 1 && s[e - 1] == 0x7d)
+                &&& (s[p] == 0x6e || s[p] == 0x74 || s[p] == 0x66 || s[p] == 0x22 || s[p] == 0x5b || s[p] == 0x7b || s[p] == 0x2d || is_digit(s[p]))
+            }),
+//@body
+        proof { lemma_ws_end_bounds(self.parser.read.data(), self.parser.read.idx() as int); axiom_lits(); }
+//@before /match \(ret, self\.end_seq\(\)\) \{/
+                proof { lemma_ws_end_bounds(self.parser.read.data(), self.parser.read.idx() as int); }
+//@before /match \(ret, self\.end_map\(\)\) \{/
+                proof { lemma_ws_end_bounds(self.parser.read.data(), self.parser.read.idx() as int); }
+//@end
+
+//@extract file=src/serde/de.rs impl="de::Deserializer<'de> for &'a mut Deserializer<R>" fn=deserialize_enum
+//@subst /fn deserialize_enum<V>\(\s*self,/ => fn deserialize_enum<V>(&mut self,
+//@subst /let _ = DepthGuard::guard\(self\);/ => self.depth_guard_tick();
+//@subst /visitor\.visit_enum\(VariantAccess::new\(self\)\)/ => visitor.visit_enum_tagged(VariantAccess::new(self))
+//@subst /visitor\.visit_enum\(UnitVariantAccess::new\(self\)\)/ => visitor.visit_enum_unit(UnitVariantAccess::new(self))
+//@subst /V: de::Visitor<'de>,/ => V: Visitor<'de>,
+//@sig
+        requires old(self).parser.pinv(),
+            ({
+                let s = old(self).parser.read.data();
+                let p = ws_end(s, old(self).parser.read.idx() as int);
+                &&& (p < s.len() && s[p] == 0x7b ==> visitor.enum_start_ok(s, p + 1, true))
+                &&& (p < s.len() && s[p] == 0x22 ==> visitor.enum_start_ok(s, p, false))
+            }),
+        ensures final(self).parser.pinv(), final(self).parser.same_doc(&old(self).parser),
+            // an enum is `"Variant"` or `{"Variant": value}` — for the tagged form the closing brace must follow (after
+            // whitespace) what the visitor consumed; any other first byte is an error
+            res.is_ok() ==> ({
+                let s = old(self).parser.read.data();
+                let p = ws_end(s, old(self).parser.read.idx() as int);
+                &&& p < s.len() && (s[p] == 0x7b || s[p] == 0x22)
+                &&& (s[p] == 0x7b ==> final(self).parser.read.idx() >= 1 && s[final(self).parser.read.idx() - 1] == 0x7d)
+            }),
+//@body
+        proof { lemma_ws_end_bounds(self.parser.read.data(), self.parser.read.idx() as int); }
+//@before /match self\.parser\.skip_space\(\) \{/
                 proof { lemma_ws_end_bounds(self.parser.read.data(), self.parser.read.idx() as int); }
 //@end
 
